@@ -9,6 +9,7 @@ import (
 	"encoding/json"
 	"math/rand"
 	"os"
+	"sync"
 	"testing"
 
 	"github.com/pion/stun/v3"
@@ -262,6 +263,7 @@ func TestVerifAuth(t *testing.T) {
 		return
 	}
 
+	concurrentAuth(tw, mode)
 	if mode == "C04" {
 		// signing refused once FINGERPRINT is present (message must stay unchanged)
 		for i := 0; i < envInt("VERIF_N_REFUSE", 20); i++ {
@@ -544,4 +546,75 @@ func replayAuthLine(tw *traceWriter, line []byte) {
 		k := stun.NewLongTermIntegrity(string(unints(e.User)), string(unints(e.Realm)), string(unints(e.Pass)))
 		tw.emit(map[string]interface{}{"k": "ltkey", "user": e.User, "realm": e.Realm, "pass": e.Pass, "key": ints(k)})
 	}
+}
+
+// concurrentAuth: several goroutines sign / fingerprint messages of their own at the same time (no Message is
+// shared). Recorded for the validator: every VERIF_CONC_EVERY-th message of each goroutine, and every message that the
+// library's own check does not accept right after the setter (the reference codec in TLC decides about it).
+func concurrentAuth(tw *traceWriter, mode string) {
+	const workers = 8
+	iters := envInt("VERIF_CONC_ITERS", 20000)
+	every := envInt("VERIF_CONC_EVERY", 4000)
+	var wg sync.WaitGroup
+	gate := make(chan struct{})
+	for g := 0; g < workers; g++ {
+		wg.Add(1)
+		go func(g int) {
+			defer wg.Done()
+			r := rand.New(rand.NewSource(seed()*131 + int64(g)))
+			key := randBytes(r, []int{16, 20, 64, 65, 100, 3, 0, 32}[g])
+			failures := 0
+			m := new(stun.Message)
+			<-gate
+			for i := 0; i < iters; i++ {
+				m.Reset()
+				setters := []stun.Setter{stun.NewType(stun.Method(r.Intn(4096)), stun.MessageClass(r.Intn(4))), stun.TransactionID}
+				for j, n := 0, r.Intn(3); j < n; j++ {
+					setters = append(setters, stun.RawAttribute{Type: stun.AttrType(1 + r.Intn(0x30)), Value: randBytes(r, r.Intn(14))})
+				}
+				if err := m.Build(setters...); err != nil {
+					panic(err)
+				}
+				pre := append([]byte(nil), m.Raw...)
+				if mode == "C04" {
+					err := stun.MessageIntegrity(key).AddTo(m)
+					post := append([]byte(nil), m.Raw...)
+					dm, ok := decodeCopy(post, 24)
+					v := 0
+					if ok {
+						v = checkVerdict(stun.MessageIntegrity(key), dm)
+					}
+					if i%every == g || ((err != nil || !ok || v != 1) && failures < 10) {
+						if v != 1 {
+							failures++
+						}
+						tw.emit(map[string]interface{}{"k": "miadd", "pre": ints(pre), "post": ints(post), "key": ints(key), "err": b01(err == nil), "concurrent": g})
+						tw.emit(map[string]interface{}{"k": "michk", "raw": ints(post), "dec": b01(ok), "keys": [][]interface{}{{ints(key), v}}, "concurrent": g})
+					}
+					continue
+				}
+				if g%2 == 0 {
+					if err := stun.MessageIntegrity(key).AddTo(m); err != nil {
+						panic(err)
+					}
+					pre = append(pre[:0], m.Raw...)
+				}
+				err := stun.Fingerprint.AddTo(m)
+				post := append([]byte(nil), m.Raw...)
+				dm, ok := decodeCopy(post, 0)
+				v := 0
+				if ok {
+					v = checkVerdict(stun.Fingerprint, dm)
+				}
+				if i%every == g || ((err != nil || !ok || v != 1) && failures < 10) {
+					if v != 1 {
+						failures++
+					}
+					tw.emit(map[string]interface{}{"k": "fpadd", "pre": ints(pre), "post": ints(post), "chk": v, "concurrent": g})
+				}
+			}
+		}(g)
+	}
+	close(gate)
+	wg.Wait()
 }
